@@ -185,7 +185,8 @@ fn merge_stub<I: Interner>(
 // Ambig(Definite(first answer)) although the table had just discarded its strands and answers (DESIGN section 6h) - were
 // written as harnesses of this same contract (`sub_contract`) and do NOT finish: behind the peek make_solution calls
 // CanonicalExt::map, i.e. instantiate + canonicalize through the generic folder, and CBMC gives no verdict in 900 s even
-// though stream and substitution are concrete.  They are not registered; the clause is stated in `sub_contract` for the
+// though stream and substitution are concrete - and not on the repaired tree either, where the function returns right
+// behind the peek (dropping a non-empty substitution goes through the recursive drop glue of Ty).  They are not registered; the clause is stated in `sub_contract` for the
 // day it becomes checkable, and is NOT claimed.
 fn one_subst() -> Canonical<ConstrainedSubst<VerifIr>> {
     let ty = TyKind::Str.intern(VerifIr);
